@@ -1838,6 +1838,10 @@ func (lg *ledger) boundFacts(b *ssa.BasicBlock) (out []diffC) {
 			}
 		}
 	}
+	// what every static call site knows about the arguments, restated for the parameters (relations
+	// between parameters -- "pos < len(node.Arguments)", "len(vals) == len(f.Parameters)" -- are
+	// established by the callers of an extracted helper)
+	out = append(out, lg.callerFacts()...)
 	// structural facts
 	for phi, lb := range lg.nonNegPhis() {
 		out = append(out, diffC{"0", lg.key(phi), -lb}) // phi >= lb
@@ -2043,6 +2047,89 @@ func (lg *ledger) subFacts(cs []diffC) []diffC {
 			// exact relation when b is known relative to a by a constant is covered by the two above for our uses
 		}
 	}
+	return out
+}
+
+// callerFacts: difference constraints over the parameters of lg.fn that hold at every static call
+// site of the function (an unexported function of the module with at most four call sites): the
+// facts known at each site are restated by replacing the key of each argument by the key of the
+// parameter it is bound to, and only what all sites agree on is kept.
+func (lg *ledger) callerFacts() []diffC {
+	if lg.depth >= 2 || lg.fn.Parent() != nil || !inModule(lg.fn) {
+		return nil
+	}
+	if o := lg.fn.Object(); o == nil || o.Exported() {
+		return nil
+	}
+	sites := lg.w.staticCallSites(lg.fn)
+	if len(sites) == 0 || len(sites) > 4 {
+		return nil
+	}
+	type key struct{ x, y string }
+	var agreed map[key]int64
+	for si, st := range sites {
+		args := st.Common().Args
+		if len(args) != len(lg.fn.Params) || st.Parent() == lg.fn {
+			return nil
+		}
+		l2 := newLedger(lg.w, st.Parent())
+		l2.depth = lg.depth + 1
+		type rep struct{ from, to string }
+		var reps []rep
+		for i, prm := range lg.fn.Params {
+			ak := l2.key(args[i])
+			if ak == "" || strings.HasPrefix(ak, "const(") || ak == "nil" {
+				continue
+			}
+			reps = append(reps, rep{ak, lg.key(prm)})
+		}
+		sort.Slice(reps, func(i, j int) bool { return len(reps[i].from) > len(reps[j].from) })
+		tr := func(s string) (string, bool) {
+			hit := false
+			for _, r := range reps {
+				if strings.Contains(s, r.from) {
+					s = strings.ReplaceAll(s, r.from, r.to)
+					hit = true
+				}
+			}
+			return s, hit
+		}
+		here := map[key]int64{}
+		for _, f := range l2.subFacts(l2.boundFacts(st.Block())) {
+			x, hx := tr(f.x)
+			y, hy := tr(f.y)
+			// both terms must be about parameters (or the constant origin)
+			if !(hx || f.x == "0") || !(hy || f.y == "0") || (!hx && !hy) {
+				continue
+			}
+			k := key{x, y}
+			if c, ok := here[k]; !ok || f.c < c {
+				here[k] = f.c
+			}
+		}
+		if si == 0 {
+			agreed = here
+			continue
+		}
+		for k, c := range agreed {
+			c2, ok := here[k]
+			if !ok {
+				delete(agreed, k)
+			} else if c2 > c {
+				agreed[k] = c2 // the weaker of the two
+			}
+		}
+	}
+	var out []diffC
+	for k, c := range agreed {
+		out = append(out, diffC{k.x, k.y, c})
+	}
+	sort.Slice(out, func(i, j int) bool {
+		if out[i].x != out[j].x {
+			return out[i].x < out[j].x
+		}
+		return out[i].y < out[j].y
+	})
 	return out
 }
 
